@@ -1087,10 +1087,23 @@ def general_linear_rates(pk: dict, ncomp: int):
         if m:
             i, j = int(m.group(1)), int(m.group(2))
         else:
-            m = re.fullmatch(r'K(\d)(\d)', name)
+            m = re.fullmatch(r'K(\d{2,4})', name)
             if not m:
                 continue
-            i, j = int(m.group(1)), int(m.group(2))
+            digs = m.group(1)
+            if len(digs) == 2:
+                i, j = int(digs[0]), int(digs[1])
+            elif len(digs) == 4:
+                i, j = int(digs[:2]), int(digs[2:])
+            else:
+                # Kijk: i|jk or ij|k -- only one reading may denote existing compartments
+                # (NONMEM asks for the KiTj form when both do)
+                c1 = (int(digs[0]), int(digs[1:]))
+                c2 = (int(digs[:2]), int(digs[2:]))
+                ok = [c for c in (c1, c2) if 1 <= c[0] <= ncomp and 0 <= c[1] <= ncomp + 1 and not (c is c1 and c[1] == 0)]
+                if len(ok) != 1:
+                    raise Unsupported(f'ambiguous or impossible rate constant name {name}')
+                i, j = ok[0]
         if j == ncomp + 1:
             j = 0
         if 1 <= i <= ncomp and 0 <= j <= ncomp:
